@@ -209,7 +209,7 @@ func c09R2(c *Ctx) {
 			return true
 		}
 		o := c.Require("C09.R2", "gcPods: a pod counts as running only while its sandbox has not exited", gc, as, "!$pod.SandboxExited", map[string]string{"$pod": exprString(rs.Value)})
-		keyShape := shapeOf(p, info, ix.Index, 0).String()
+		keyShape := shapeOfVar(p, gc, ix.Index)
 		if o.Verdict == Discharged && keyShape == "<ns>/<name>" {
 			okFill = true
 		} else {
